@@ -97,7 +97,7 @@ func evalMutated(r *ev.Run, m mutation, stream []byte, keys []ech.Key, goKeys []
 }
 
 func Run(r *ev.Run) {
-	r.Rule("fault enumeration (E1): base tuples = 3 AEADs x inner with/without outer-extension compression x ECH extension first/middle/last x session id 0/32 bytes, sealed by the reference sender; per base: EVERY single-bit flip of the outer ClientHello handshake message, every truncation of enc and of payload (consistent length prefixes), enc replaced by another valid point, wrong private key (same id), config differing in one byte (wrong info), suite id altered in the extension, suite absent from the config, wrong config id, payload sealed at sequence number 1, payload sealed for another outer hello, 1..32 zero/non-zero bytes inserted after the extensions block or inside the ECH extension after the payload, an extension added/removed after sealing, hellos sealed consistently but naming a config id the server does not hold or a suite its config does not list, payloads forged from public data for 7 low-order X25519 points as enc. distinct = distinct (stream, key set) pairs")
+	r.Rule("fault enumeration (E1): base tuples = 3 AEADs x inner with/without outer-extension compression x ECH extension first/middle/last x session id 0/32 bytes, sealed by the reference sender; per base: EVERY single-bit flip of the outer ClientHello handshake message, every truncation of enc and of payload (consistent length prefixes), enc replaced by another valid point, wrong private key (same id), config differing in one byte (wrong info), suite id altered in the extension, suite absent from the config, wrong config id, payload sealed at sequence number 1, payload sealed for another outer hello, 1..32 zero/non-zero bytes inserted after the extensions block or inside the ECH extension after the payload, 1..3 bytes inside the extensions block after the last extension, an extension added/removed after sealing, hellos sealed consistently but naming a config id the server does not hold or a suite its config does not list, payloads forged from public data for 7 low-order X25519 points as enc. distinct = distinct (stream, key set) pairs")
 	r.Assume("reference sender validated against crypto/tls on every run", "bit flips cover the handshake message (header+body), not the 5-byte record header, which is not authenticated by ECH")
 	key := echx.NewKey("c02", 42, echx.AllSuites, "public.example")
 	if err := c03.SelfValidate(echx.NewKey("c03", 7, echx.AllSuites, "public.example")); err != nil {
@@ -214,6 +214,15 @@ func Run(r *ev.Run) {
 				h := built.Outer.Clone()
 				h.Trailer = bytes.Repeat([]byte{fill}, n)
 				jobs = append(jobs, job{mutation{b, fmt.Sprintf("trailing-bytes-after-extensions-%02x", fill), n}, h.Record(), keys})
+			}
+		}
+		// 1..3 bytes appended INSIDE the extensions block after the last extension (too few to form an extension header; block
+		// and message lengths fixed up): either the hello is malformed (abort) or the bytes are covered by the AAD (no acceptance)
+		for n := 1; n <= 3; n++ {
+			for _, fill := range []byte{0x00, 0xff} {
+				h := built.Outer.Clone()
+				h.ExtsTrailer = bytes.Repeat([]byte{fill}, n)
+				jobs = append(jobs, job{mutation{b, fmt.Sprintf("bytes-inside-extensions-block-after-last-extension-%02x", fill), n}, h.Record(), keys})
 			}
 		}
 		// bytes appended INSIDE the ECH extension, after the payload vector (extension and block lengths fixed up): the AAD
